@@ -22,7 +22,7 @@ for d in "$HERE"/seeded/*/; do
   inv=$(echo "$out" | grep -o 'invariant=[^ ]*' | sort | uniq -c | sort -rn | head -1 | awk '{print $2}')
   v=detected
   if [ $code -ne 1 ]; then
-    if [ "$(jq -r '(.out_of_scope // .superseded // "") != ""' "$d/meta.json")" = true ]; then v="not-judged(exit=$code)"; elif [ "$(jq -r '.check.tier_needed // ""' "$d/meta.json")" = thorough ] && [ "${SEEDED_TIER:-quick}" = quick ]; then v="thorough-only(exit=$code)"; else v="MISSED(exit=$code)"; bad=1; fi
+    if [ "$(jq -r '(.out_of_scope // .superseded // "") != ""' "$d/meta.json")" = true ]; then v="not-judged(exit=$code)"; elif [ "$(jq -r '.check.tier_needed // ""' "$d/meta.json")" = thorough ] && [ "${SEEDED_TIER:-quick}" = quick ]; then v="thorough-only(exit=$code)"; elif [ "$(jq -r '(.missed // "") != ""' "$d/meta.json")" = true ]; then v="known-miss(exit=$code)"; else v="MISSED(exit=$code)"; bad=1; fi
   fi
   printf "%-10s %-4s %-9s %-32s %5.1fs\n" "$name" "$id" "$v" "$inv" "$(echo "$t1 - $t0" | bc)"
 done
